@@ -202,7 +202,11 @@ def check_translation(ctx):
         if t.startswith('type(%s)==sympy.' % tree):
             branches[t.split('sympy.')[1]] = body
     asg = {k(util.stmt_key(s)) for s in f.body}
-    if 'args=%s.args' % tree not in asg:
+    if 'args=%s.args' % tree in asg:
+        A = 'args'
+    elif not any(isinstance(n_, ast.Name) and n_.id == 'args' and isinstance(n_.ctx, ast.Store) for n_ in ast.walk(f)):
+        A = '%s.args' % tree        # the argument tuple read in place (also the normal form with the temporary read through)
+    else:
         raise AnalysisError('sympy_recursion: args is not the node argument tuple')
     rec = 'sympy_recursion(%s,' + s2i + ',' + p2i + ')'
     for kind, cls in TABLE.items():
@@ -231,7 +235,7 @@ def check_translation(ctx):
                     if len(loops) == 1:
                         lp_ = loops[0]
                         it_ = k(src(lp_.iter))
-                        elem_ = src(lp_.target) if it_ == 'args' else ('args[%s]' % src(lp_.target) if it_ == 'range(len(args))' else None)
+                        elem_ = src(lp_.target) if it_ == A else ('%s[%s]' % (A, src(lp_.target)) if it_ == 'range(len(%s))' % A else None)
                         # the element may be translated into a named temporary first
                         wrap_ = ast.FunctionDef(name='_b', args=ast.arguments(posonlyargs=[], args=[], kwonlyargs=[], kw_defaults=[], defaults=[]),
                                                 body=lp_.body, decorator_list=[], type_params=[])
@@ -242,10 +246,10 @@ def check_translation(ctx):
                     if not ok_loop:
                         problems.append('not every argument is translated and added')
                 elif cls == 'PowerTerm':
-                    if '%s.set_base(%s)' % (var, rec % 'args[0]') not in t or '%s.set_exponent(%s)' % (var, rec % 'args[1]') not in t:
+                    if '%s.set_base(%s)' % (var, rec % (A + '[0]')) not in t or '%s.set_exponent(%s)' % (var, rec % (A + '[1]')) not in t:
                         problems.append('base/exponent are not args[0]/args[1]: %s' % t)
                 else:
-                    if '%s.set_arg(%s)' % (var, rec % 'args[0]') not in t:
+                    if '%s.set_arg(%s)' % (var, rec % (A + '[0]')) not in t:
                         problems.append('the argument is not args[0]: %s' % t)
         ctx.ob('R2.2-translation', kind, not problems, where, 'sympy.%s becomes a %s with its operands in the right roles' % (kind, cls), '; '.join(problems))
     # R2.3 rejection
